@@ -372,7 +372,12 @@ def _chunk_runner(chunk):
     out = []
     for c in chunk:
         EVALS["n"] = 0
-        out.append(run_history(c))
+        try:
+            out.append(run_history(c))
+        except InvariantBroken as e:
+            # a broken invariant makes every later public call (getters included) fail its pre-check
+            out.append({"problems": [("invariant", f"{c[0]}: class invariant false when a later call started: {str(e)[:300]}", [])],
+                        "ops": 2, "raised": 0, "evals": EVALS["n"], "log": ["<history aborted by a broken invariant>"], "final": "<invariant broken>"})
     return out
 
 
